@@ -207,6 +207,13 @@ class C01:
                         op.pop("name", None), op.pop("ns", None), op.pop("globals", None)
                         op["main"] = m
                         op["data"] = (ci + op["uid"]) % len(datas)
+        if seq_edit or override:
+            # sources change during these runs: an extra request on the asynchronous side's environment
+            # would give its cache another history than the reference's (a different entry evicted, a
+            # reload at another moment), and after the edit the two would legitimately differ
+            for c in clients:
+                for op in c["ops"] + (c.get("ops2") or []):
+                    op.pop("sync_too", None)
         return {
             "pkg": "lvc01_%x" % (run_seed & 0xFFFFFFFF),
             "recipe": recipe, "loader": kind, "ns_key": NS_KEY if rng.chance(0.5) else "",
